@@ -2,6 +2,7 @@ package rules
 
 import (
 	"fmt"
+	"go/types"
 	"strings"
 
 	"golang.org/x/tools/go/ssa"
@@ -375,4 +376,37 @@ func checkEntryHops(c *Ctx) {
 		R.Check(found, "R03.4", fn+"#hops", toHops.Pos(), fn, "TracerouteRun.Hops = ToHops(...) unmodified", "the returned run's Hops is not ToHops' slice")
 	}
 	R.Floor("R03.4:entry-points", n, 4)
+	// the ICMP / SACK helpers: result.Hops is the engine's slice, run with p.ParallelParams
+	for _, name := range []string{"icmp.runICMPTraceroute", "sack.runSackTraceroute"} {
+		f := c.P.Func(name)
+		if f == nil {
+			R.Fail("R03.4", name+"#anchor", 0, "", "anchor "+name+" no longer resolves")
+			continue
+		}
+		rps, _ := core.ReturnPaths(c.P, f, 20000)
+		nok := 0
+		for _, rp := range rps {
+			if rp.Ret.Block().Comment == "recover" || !rp.Results[1].IsConst("nil") {
+				continue
+			}
+			nok++
+			var al *ssa.Alloc
+			for _, b := range rp.Path.Blocks {
+				for _, in := range b.Instrs {
+					if a, ok := in.(*ssa.Alloc); ok && a.Heap && (isNamed(a.Type(), core.ModulePath+"/icmp", "icmpResult") || isNamed(a.Type(), core.ModulePath+"/sack", "sackResult")) {
+						al = a
+					}
+				}
+			}
+			if al == nil {
+				R.Fail("R03.4", name+"#result-literal", rp.Ret.Pos(), name, "the helper's result is not a literal: undecided")
+				continue
+			}
+			hops := rp.Env.LoadField(al, "Hops", rp.Ret, types.Typ[types.Invalid])
+			ok := hops.Op == "extract" && hops.Name == "0" && isCallToSuffix(hops.Args[0], "TracerouteParallel") && strings.HasSuffix(hops.Args[0].Args[len(hops.Args[0].Args)-1].String(), "p.ParallelParams")
+			R.Check(ok, "R03.4", name+"#hops", rp.Ret.Pos(), name, "Hops = TracerouteParallel(ctx, driver, p.ParallelParams)#0", "the helper's Hops is "+hops.String()+", not the engine's result for p.ParallelParams")
+			break
+		}
+		R.Floor("R03.4:helper-success:"+name, nok, 1)
+	}
 }
